@@ -238,3 +238,39 @@ PLUMB_WRITERS = {
     ("ParsedTestCase", "expected_inputs"): ["parsed_test_case::ParsedTestCase::check_and_consume_expected_inputs"],
     ("ParsedTestCase", "read_outputs"): ["parsed_test_case::ParsedTestCase::build_read_outputs"],
 }
+
+
+# ---- the public vocabulary the statements are written in: what a "bidirectional signal with default d" is ----------
+SIGNAL_CTORS = {
+    "Signal::output": "Signal{name: Into::into(name), bits: bits, typ: SignalType::Output{}}",
+    "Signal::input": "Signal{name: Into::into(name), bits: bits, typ: SignalType::Input{default: Into::into(default)}}",
+    "Signal::bidirectional": "Signal{name: Into::into(name), bits: bits, typ: SignalType::Bidirectional{default: Into::into(default)}}",
+    "<value::InputValue as std::convert::From<i64>>::from": "InputValue::Value{0: value}",
+    "<value::OutputValue as std::convert::From<i64>>::from": "OutputValue::Value{0: value}",
+}
+SIGNAL_TABLES = {
+    "Signal::default_value": {"Input": {"Option::Some{0: (self.typ as Input).default}"}, "Bidirectional": {"Option::Some{0: (self.typ as Bidirectional).default}"}, "Output": {"Option::None{}"}, "Virtual": {"Option::None{}"}},
+    "Signal::is_bidirectional": {"Bidirectional": {"1"}, "Input": {"0"}, "Output": {"0"}, "Virtual": {"0"}},
+    "Signal::is_input": {"Input": {"1"}, "Bidirectional": {"1"}, "Output": {"0"}, "Virtual": {"0"}},
+    "Signal::is_output": {"Output": {"1"}, "Bidirectional": {"1"}, "Input": {"0"}, "Virtual": {"0"}},
+}
+
+
+def signal_api_rule(chk, P):
+    """The properties speak of inputs, outputs, bidirectional signals and their defaults; a user makes them with the public
+    constructors and the code asks about them through four accessors.  Each constructor builds exactly the variant it is
+    named after from exactly its arguments, the i64 conversions build Value(n), and each accessor has its confirmed
+    per-variant table (default_value hands out the signal's own default)."""
+    from ..core import tab
+    for fn, want in sorted(SIGNAL_CTORS.items()):
+        b = P.body(fn)
+        if not chk.anchor(fn, b):
+            continue
+        r = sorted(set(canon(P.resolve(b, P.sl(b).ret(rb))) for rb in P.cfg(b).return_blocks()))
+        chk.require(r == [want], "ORG", "API:%s" % fn.replace("<", "").replace(">", "").split(" as ")[0].split("::", 1)[-1] if fn.startswith("<") else "API:%s" % fn, want, "%s builds %s" % (fn, r), "%s:%d" % (b.file, b.line))
+    for fn, want in sorted(SIGNAL_TABLES.items()):
+        b = P.body(fn)
+        if not chk.anchor(fn, b):
+            continue
+        vt = tab.variant_table(P, b, subject="self.typ")
+        chk.require(vt == want, "TAB", "API:%s" % fn, str(want), "%s decides %s" % (fn, vt), "%s:%d" % (b.file, b.line))
